@@ -216,6 +216,10 @@ pub broadcast proof fn lemma_iter_elem<'a, K, V>(it: Iter<'a, K, V>, i: int)
 pub assume_specification<T>[ <[T] as core::convert::AsRef<[T]>>::as_ref ](s: &[T]) -> (r: &[T])
     ensures r == s;
 
+/// ASSUMED: `<[T] as AsMut<[T]>>::as_mut` is the identity on the mutable reference
+pub assume_specification<T>[ <[T] as core::convert::AsMut<[T]>>::as_mut ](s: &mut [T]) -> (r: &mut [T])
+    ensures r@ == old(s)@, final(r)@ == final(s)@;
+
 impl<K, V, const N: usize> Map<K, V, N> {
     pub open spec fn slot(&self, i: int) -> Option<(K, V)> {
         slot_of(self.pairs, i)
